@@ -114,7 +114,7 @@ pub fn l2_alphabet(cfg: Config) -> Vec<Comp> {
                 }
             }
         }
-        for name in ["p", "P", "poêle", "POÊLE"] {
+        for name in ["p", "P", "poêle", "POÊLE", "a"] {
             for m in ["", "&", "-"] {
                 v.push(Comp::new(Kind::Cw, name).mods(m));
                 v.push(Comp::new(Kind::Cw, name).mods(m).qty(Val::Int(2), None));
@@ -188,12 +188,15 @@ pub fn l3_alphabet(cfg: Config) -> Vec<Block> {
             Block::Switch("duplicate", "ref"),
             Block::Switch("duplicate", "new"),
             Block::Step(vec![c(igr("a", 1, "kg")), t(" "), c(Comp::new(Kind::Cw, "p").qty(Val::Int(1), None))]),
+            // markers that are documented to stay plain text (marker followed by a blank, also after modifier characters)
+            Block::Step(vec![t("Simmer for ~- a while, mail me @ home or @+ b, recipe # five, #? c")]),
         ]);
     } else {
         v.extend([
             Block::Step(vec![t("Let it "), c(Comp::new(Kind::Tm, "rest")), t(" then add "), c(Comp::new(Kind::Igr, "a"))]),
             Block::Step(vec![t("heat to "), Item::InlineQ("180", "C"), t(" then wait")]),
             Block::Meta("time", "1h30m", false),
+            Block::Step(vec![t("Wait ~ a bit, mail me @ home, recipe # five")]),
         ]);
     }
     v
